@@ -3,6 +3,7 @@ CONSTANTS
   Sessions = {"M1"}
   Legacy = {}
   InitOn = {"M1"}
+  InitSub = {}
   Kinds = {}
   NotifOf <- NotifStd
   Uris = {"u1"}
@@ -22,5 +23,6 @@ CONSTANTS
   MinSteps = 1
   MaxSteps = 9
   Bias = FALSE
+  GenOps = {"change", "tchange", "updated", "connect", "close", "subscribe", "unsubscribe", "list", "tick", "hold", "release"}
 INVARIANTS LeadFresh
 CHECK_DEADLOCK FALSE
